@@ -30,19 +30,19 @@ PID = "C19"
 ALPHABETS = {"strand": "+-.", "dna": "ACGT", "cigop": "MIDNSHP=X", "bam": "=ACMGRSVTWYHKDBN"}
 
 POOL = {
-    "str": ["ab", "", "c", "Hello w", "zz9", "q"],
+    "str": ["ab", "", "c", "Hello w, a longer text of 40 characters..", "zz9", "q"],
     "union": ["a=1", "", "b", "DP=4;AF=0.5", "x", "."],
-    "sid": ["x1", "chr10", "z", "chr1", "ab_c", "y"],
+    "sid": ["x1", "chr10", "z", "scaffold_1234567.1_random", "ab_c", "y"],
     "int": [5, -3, 2 ** 53 + 1, 0, 7, -(2 ** 62)],
     "float": [1.5, -0.25, 1e300, 0.0, 2.5e-10, -7.0],
     "bool": [True, False, True, True, False, False],
     "optint": [3, -4, 5, 0, 17, 8],
-    "li": [[1, 2], [7], [], [0, -5, 2 ** 40], [3], [4, 4]],
+    "li": [[1, 2], [7], [], [0, -5, 2 ** 40] + list(range(20)), [3], [4, 4]],
     "lf": [[1.5, 2.0], [7.0], [], [-0.5], [0.0, 1e10], [3.25]],
     "lb": [[True, False], [True], [], [False], [False, True, True], [True, True]],
     "ls": [["a", "b"], ["c", "dd"], ["e", "f"], ["gg", "h"], ["i", "j"], ["k", "l"]],
     "strand": ["+", "-", ".", "-", "+", "."],
-    "dna": ["ACG", "", "T", "GGTTAC", "A", "CA"],
+    "dna": ["ACG", "", "T", "GGTTACGTACGTTTGACCAGTACGATCGATCGGAT", "A", "CA"],
     "qual": [[0, 0, 2], [40], [], [1], [5, 6], [93]],
     "cigop": ["MID", "", "S", "=X", "HP", "N"],
     "ciglen": [[1, 2, 3], [4], [], [100, 2 ** 20], [7], [8, 9]],
